@@ -332,6 +332,23 @@ func (s *lcState) apply(op lcOp, check bool, hist []lcOp) {
 	case "neg":
 		s.ac.ConfigureNegativeCaching(op.On, time.Duration(lcNegTTL))
 		m.negOn = op.On
+		if !op.On {
+			// negative entries exist only while negative caching is enabled; an implementation
+			// may drop them at once or merely stop serving them (Get is judged either way)
+			order, _ := s.implKeys()
+			still := map[string]bool{}
+			for _, k := range order {
+				still[k] = true
+			}
+			var keep []*lcEntry
+			for _, e := range m.lru {
+				if e.neg && !still[e.key] {
+					continue
+				}
+				keep = append(keep, e)
+			}
+			m.lru = keep
+		}
 	case "clear":
 		if s.which == "attr" {
 			s.ac.Clear()
